@@ -85,6 +85,9 @@ func (t *uTree) real() parser.QueryExpression {
 	if t.atom[0] >= '0' && t.atom[0] <= '9' {
 		return parser.NewIntegerValueFromString(t.atom)
 	}
+	if t.atom[0] == ':' {
+		return parser.Placeholder{Literal: t.atom, Ordinal: 1, Name: t.atom[1:]}
+	}
 	return parser.FieldReference{Column: parser.Identifier{Literal: t.atom}}
 }
 
@@ -118,13 +121,13 @@ func unaryCase(o *hc.Out, t *uTree) {
 func unaryWitnesses(o *hc.Out) {
 	one := &uTree{op: 'A', atom: "1"}
 	for _, t := range []*uTree{one, {op: 'N', sub: one}, {op: 'N', sub: &uTree{op: 'N', sub: one}}, {op: 'N', sub: &uTree{op: 'R', sub: &uTree{op: 'N', sub: one}}},
-		{op: 'P', sub: &uTree{op: 'N', sub: one}}, {op: 'B', sub: &uTree{op: 'B', sub: &uTree{op: 'A', atom: "a"}}}} {
+		{op: 'P', sub: &uTree{op: 'N', sub: one}}, {op: 'B', sub: &uTree{op: 'B', sub: &uTree{op: 'A', atom: "a"}}}, {op: 'B', sub: &uTree{op: 'A', atom: ":a"}}, {op: 'N', sub: &uTree{op: 'B', sub: &uTree{op: 'A', atom: ":a"}}}} {
 		unaryCase(o, t)
 	}
 }
 
 func genUnary(g *hc.Gen) *uTree {
-	t := &uTree{op: 'A', atom: g.Pick("1", "0", "42", "a", "col_1", "x")}
+	t := &uTree{op: 'A', atom: g.Pick("1", "0", "42", "a", "col_1", "x", ":p", ":val")}
 	for d := g.Intn(6); d > 0; d-- {
 		t = &uTree{op: "NNNPBR"[g.Intn(6)], sub: t}
 	}
